@@ -3,7 +3,7 @@
 import json, sys, os
 sys.path.insert(0, os.path.dirname(os.path.abspath(__file__)))
 from plans import PLANS
-from manifest_texts import TEXTS, NOT_APPLICABLE, HOOK_COMMITS
+from manifest_texts import TEXTS, NOT_APPLICABLE, HOOK_COMMITS, FIX_COMMITS
 props = [json.loads(l)["id"] for l in open("/verif/properties.jsonl")]
 checks = []
 for p in props:
@@ -25,7 +25,7 @@ na = [{"property_id": p, "reason": NOT_APPLICABLE.get(p, "check under constructi
       for p in props if p not in {c["property_id"] for c in checks}]
 m = {
     "version": 1,
-    "setup_cmd": "cd /verif/harness && cargo build --offline && cargo build --offline --features test-utils",
+    "setup_cmd": "cd /verif/harness && cargo build --offline && cargo build --offline --features test-utils && cargo build --offline --features deadlock-detection && cargo build --offline --features metrics && cargo build --offline --features deadlock-detection,test-utils && cargo build --offline --features tracing,metrics,test-utils,deadlock-detection && cargo build --offline",
     "hooks": {"guard": "--cfg rsactor_verif",
               "enable": "rustflags in /verif/harness/.cargo/config.toml: --cfg rsactor_verif (the harness depends on /repo by path, so every check rebuilds the current working tree with the hooks on)",
               "baseline_off_cmd": "cd /repo && cargo test --workspace --no-fail-fast --offline",
@@ -36,7 +36,7 @@ m = {
     ],
     "checks": checks,
     "not_applicable": na,
-    "notes": "See DESIGN.md. Exit codes: 0 held, 1 violation (VIOLATION line), 2 tool error.",
+    "notes": "See DESIGN.md. Exit codes: 0 held, 1 violation (VIOLATION line), 2 tool error. Genuine defects repaired in /repo by fix: commits %s (recorded in known_findings.json)." % ", ".join(FIX_COMMITS),
 }
 json.dump(m, open("/verif/MANIFEST.json", "w"), indent=1)
 print("checks:", [c["property_id"] for c in checks], "n/a:", [x["property_id"] for x in na])
